@@ -11,7 +11,7 @@ PARALLEL = 4
 META = {
     "functions_encoded": ["engine::uci::options::{HashOption, ThreadsOption, MoveOverheadOption}::{DEF, set}", "str::parse::<usize> as compiled",
                           "engine::transposition_table::calculate_number_of_entries::<SearchTranspositionTableData>"],
-    "stubs": [],
+    "stubs": ["alloc::fmt::format -> empty string (error messages of the setters are not the subject)"],
     "bounds": ["option text: canonical decimal of 1..4 digits (covers every advertised range: max 1024)", "unwind 6"],
     "outside": ["'afterwards the engine still answers isready and completes a search with a legal move': needs Uci::execute (threads) and a whole search",
                 "the allocation performed by resize for sizes > 0 (Vec::resize of mb*65536 entries)",
